@@ -30,8 +30,7 @@ SPEC = {
         "Go harness (fake gRPC client feeding the real Receiver loop), Python driver lib/vk.py",
     ],
     "assumptions": [
-        "zone UTC (utils.InstanceConfig.Timezone = UTC), intraday timeframes that tile the day in whole seconds inside the theorems; 1D buckets are "
-        "covered by the correspondence only",
+        "zone UTC (utils.InstanceConfig.Timezone = UTC); timeframes of whole seconds that tile the day, 1D included (guard tf_okb)",
         "VARIABLE buckets: the theorem gives the replica's store exactly (re-ticked records); that re-ticked timestamps stay within the resolution "
         "when no whole second lies inside the interval is NOT proved (Definition C25_variable_close; it is C10's open float bound); it is checked on "
         "the model and on the real code for every generated case",
